@@ -95,4 +95,3 @@ func GenHostile(t *rapid.T, maxMsg int) []Seg {
 		return []Seg{{Raw: []byte(rapid.SampledFrom([]string{"\tat com.foo.Bar(Baz.java:1)", "", " ", "Caused by: x", "<13>1 short"}).Draw(t, "garbage")), Rep: 1}}
 	}
 }
-
